@@ -414,18 +414,35 @@ func unloadablePage(doc pdfw.DocSpec, at int) ([]byte, int) {
 }
 
 var markerRe = regexp.MustCompile(`#[0-9]+`)
+var fragTextRe = regexp.MustCompile(`Text:"((?:[^"\\]|\\.)*)"`)
 
 // foreignMarkers: every generated line ends in a marker "#<n>" that is unique in the
 // document. It returns a marker of got that is on none of the pages in sel ("" if none).
 func foreignMarkers(got string, sel []int, rn *runner) string {
 	own := map[string]bool{}
 	for _, pg := range sel {
-		s, failed := rn.ref(pg, "text", map[string]bool{})
+		// the page's own markers are read off its fragments, joined in content order: the
+		// assembled text may itself lose or move characters of a long line (C09's subject)
+		s, failed := rn.ref(pg, "frags", map[string]bool{})
 		if failed {
 			return ""
 		}
-		for _, m := range markerRe.FindAllString(s, -1) {
+		var joined strings.Builder
+		for _, fm := range fragTextRe.FindAllStringSubmatch(s, -1) {
+			if t, err := strconv.Unquote("\"" + fm[1] + "\""); err == nil {
+				joined.WriteString(t)
+			} else {
+				joined.WriteString(fm[1])
+			}
+		}
+		for _, m := range markerRe.FindAllString(joined.String(), -1) {
 			own[m] = true
+		}
+		// and off its assembled text as well (either spelling is the page's own)
+		if st, failed := rn.ref(pg, "text", map[string]bool{}); !failed {
+			for _, m := range markerRe.FindAllString(st, -1) {
+				own[m] = true
+			}
 		}
 	}
 	for _, m := range markerRe.FindAllString(got, -1) {
